@@ -7,6 +7,8 @@
   idempotent on them (`Idem`, the C04 theorem; `idem_of_frag` discharges it for the C04 fragment).
 -/
 import PgProofs.SymTyped
+import PgProofs.SymTypedSchema
+import PgProofs.SymTypedNested
 import PgGen.C03Tables
 namespace Pg.C03
 open Pg.Typing
@@ -384,43 +386,92 @@ theorem C03_dict_batch_preserve (env : Env) (p : Bool) (pb : Val → Bool) (kvs 
           (fun kv hkv => by rw [h1.2]; exact ht kv (List.mem_cons_of_mem _ hkv)) h1.1
         exact ⟨this.1, by rw [this.2, h1.2]⟩
 
-/-- What is *assumed* about `Schema.apply` on the empty dict (used by `clear` only; modelled and
-checked by correspondence, not proved): its result conforms. -/
-def ClearConforms (env : Env) (p : Bool) (fields : List Field) : Prop :=
-  ∀ kvs, schemaApply env fields p [] = .ok kvs → ConformsD env p ⟨fields, kvs⟩
-
 def DictOp.trusted (env : Env) (fields : List Field) (p : Bool) : DictOp → Prop
   | .setitem k a => ArgTrusted env fields p k a
   | .setdefault k a => ArgTrusted env fields p k a
   | .update kvs => ∀ kv ∈ kvs, ArgTrusted env fields p kv.1 kv.2
   | _ => True
 
-/-- EVERY modelled dict / object mutator preserves the invariant, successful or failed. -/
-theorem C03_dict_preserve (env : Env) (p : Bool) (pb : Val → Bool) (d : TDict) (op : DictOp)
+/-- EVERY modelled dict / object mutator preserves the invariant, successful or failed, and keeps
+the schema.  `clear` re-applies the schema to the empty dict (defaults restored); that its result
+conforms is proved (`schemaApply_conforms`), not assumed.  `hd`: the schema's keys are distinct
+(what `Schema` enforces: its fields are a dict keyed by key spec). -/
+theorem C03_dict_preserve' (env : Env) (p : Bool) (pb : Val → Bool) (d : TDict) (op : DictOp)
+    (hd : distinctKeys (fieldKeySpecs d.fields) = true)
     (hI : ∀ f ∈ d.fields, Idem env p f.value) (ht : op.trusted env d.fields p)
-    (hclear : ClearConforms env p d.fields) (hc : ConformsD env p d) :
-    ConformsD env p (dictStep env p pb d op).1 := by
+    (hc : ConformsD env p d) :
+    ConformsD env p (dictStep env p pb d op).1 ∧ (dictStep env p pb d op).1.fields = d.fields := by
   cases op with
-  | setitem k a => exact (C03_dict_prim_preserve env p pb d k a hI ht hc).1
+  | setitem k a => exact C03_dict_prim_preserve env p pb d k a hI ht hc
   | delitem k =>
     simp only [dictStep]
     split
-    · exact hc
-    · exact (C03_dict_prim_preserve env p pb d k (.plain .missing) hI trivial hc).1
+    · exact ⟨hc, rfl⟩
+    · exact C03_dict_prim_preserve env p pb d k (.plain .missing) hI trivial hc
   | setdefault k a =>
     simp only [dictStep]
     split
     · split
-      · exact (C03_dict_prim_preserve env p pb d k a hI ht hc).1
-      · exact hc
-    · exact (C03_dict_prim_preserve env p pb d k a hI ht hc).1
-  | update kvs => exact (C03_dict_batch_preserve env p pb kvs d hI ht hc).1
+      · exact C03_dict_prim_preserve env p pb d k a hI ht hc
+      · exact ⟨hc, rfl⟩
+    · exact C03_dict_prim_preserve env p pb d k a hI ht hc
+  | update kvs => exact C03_dict_batch_preserve env p pb kvs d hI ht hc
   | clear =>
     simp only [dictStep]
     cases hs : schemaApply env d.fields p [] with
-    | ok kvs => exact hclear kvs hs
-    | error e => exact hc
-  | popitem => exact hc
+    | ok kvs => exact ⟨schemaApply_conforms env p d.fields hd hI [] kvs (by simp) hs, rfl⟩
+    | error e => exact ⟨hc, rfl⟩
+  | popitem => exact ⟨hc, rfl⟩
+
+theorem C03_dict_preserve (env : Env) (p : Bool) (pb : Val → Bool) (d : TDict) (op : DictOp)
+    (hd : distinctKeys (fieldKeySpecs d.fields) = true)
+    (hI : ∀ f ∈ d.fields, Idem env p f.value) (ht : op.trusted env d.fields p)
+    (hc : ConformsD env p d) : ConformsD env p (dictStep env p pb d op).1 :=
+  (C03_dict_preserve' env p pb d op hd hI ht hc).1
+
+/-- Construction yields a conforming dict: `pg.Dict(value, value_spec=Dict(fields), allow_partial=p)`
+(`kvs`: a Python dict, i.e. distinct keys). -/
+theorem C03_dict_construct (env : Env) (p : Bool) (fields : List Field) (kvs : List (String × Val)) (d : TDict)
+    (hd : distinctKeys (fieldKeySpecs fields) = true) (hI : ∀ f ∈ fields, Idem env p f.value)
+    (hnd : (kvs.map (·.1)).Nodup) (h : constructDict env p fields kvs = .ok d) :
+    ConformsD env p d ∧ d.fields = fields := by
+  unfold constructDict at h
+  cases hs : schemaApply env fields p kvs with
+  | error e => simp [hs] at h
+  | ok out =>
+    simp only [hs, Except.ok.injEq] at h
+    subst h
+    exact ⟨schemaApply_conforms env p fields hd hI kvs out hnd hs, rfl⟩
+
+/-- … and a conforming object: `Object.__init__(**kwargs)`. -/
+theorem C03_object_construct (env : Env) (p : Bool) (fields : List Field) (kwargs : List (String × Val)) (d : TDict)
+    (hd : distinctKeys (fieldKeySpecs fields) = true) (hI : ∀ f ∈ fields, Idem env p f.value)
+    (hnd : (kwargs.map (·.1)).Nodup) (h : constructObject env p fields kwargs = .ok d) :
+    ConformsD env p d ∧ d.fields = fields := by
+  unfold constructObject at h
+  split at h
+  · cases h
+  · split at h
+    · cases h
+    · exact C03_dict_construct env p fields kwargs d hd hI hnd h
+
+/-- The invariant holds along every history of dict / object mutations after construction — no
+assumed premise about any operation is left (typed-container arguments apart, see `ArgTrusted`). -/
+def runDictOps (env : Env) (p : Bool) (pb : Val → Bool) (d : TDict) : List DictOp → TDict
+  | [] => d
+  | op :: ops => runDictOps env p pb (dictStep env p pb d op).1 ops
+
+theorem C03_dict_history (env : Env) (p : Bool) (pb : Val → Bool) (ops : List DictOp) :
+    ∀ (d : TDict), distinctKeys (fieldKeySpecs d.fields) = true → (∀ f ∈ d.fields, Idem env p f.value) →
+      (∀ op ∈ ops, op.trusted env d.fields p) → ConformsD env p d →
+      ConformsD env p (runDictOps env p pb d ops) := by
+  induction ops with
+  | nil => intro d _ _ _ hc; exact hc
+  | cons op ops ih =>
+    intro d hd hI ht hc
+    obtain ⟨h1, h2⟩ := C03_dict_preserve' env p pb d op hd hI (ht op List.mem_cons_self) hc
+    exact ih _ (by rw [h2]; exact hd) (by rw [h2]; exact hI)
+      (fun o ho => by rw [h2]; exact ht o (List.mem_cons_of_mem _ ho)) h1
 
 /-- FULL STATEMENT without the trust hypothesis on typed arguments. -/
 def C03_dict_preserve_Full : Prop :=
@@ -469,6 +520,105 @@ example : (dictPrim envT false (fun _ => false) ⟨[Field.mk (.const "x") (.int 
     (.plain (.int (-1)))).2 = some .value := by rfl
 example : (dictPrim envT false (fun _ => false) ⟨[Field.mk (.const "x") (.int (some 0) none F0)], [("x", .int 1)]⟩ "q"
     (.plain (.int 1))).2 = some .key := by rfl
+
+/-! ## Nested key paths (`rebind({'z.y': v, 'w[0]': v})`) -/
+
+/-- A write through a key path of any length preserves the invariant of the root (and of every
+container on the way), whether it succeeds or is rejected: only the typed descendant that is
+written to validates the value, the ancestors are not re-validated — they stay fixed points of their
+specs nevertheless.  `hp`: the containers along the path satisfy `PathOK` (typed dicts / lists,
+not frozen — F185 —, idempotent field specs). -/
+theorem C03_path_write_preserve (env : Env) (pb : Val → Bool) (d : TDict) (k : String) (rest : List PKey)
+    (ins : Bool) (a : Val)
+    (hI : ∀ f ∈ d.fields, Idem env false f.value) (hM : ∀ f ∈ d.fields, MissingOK env false f.value)
+    (hp : rest ≠ [] → ∀ c fld, lookup d.kvs k = some c → getField env d.fields k = some fld →
+      PathOK env fld.value c rest)
+    (hc : ConformsD env false d) (hs : NoStaleMissing env false d) :
+    ConformsD env false (pathWrite env pb d k rest ins a).1 ∧
+      NoStaleMissing env false (pathWrite env pb d k rest ins a).1 ∧
+      (pathWrite env pb d k rest ins a).1.fields = d.fields := by
+  cases rest with
+  | nil =>
+    simp only [pathWrite]
+    have h1 := C03_dict_prim_preserve_aux env pb d k a hI hc
+    exact ⟨h1.1, dictPrim_nostale env pb d k a hM hs, h1.2⟩
+  | cons t ts =>
+    simp only [pathWrite]
+    cases hl : lookup d.kvs k with
+    | none => exact ⟨hc, hs, rfl⟩
+    | some c =>
+      cases hg : getField env d.fields k with
+      | none => exact ⟨hc, hs, rfl⟩
+      | some fld =>
+        simp only []
+        cases hn : nestedSet env pb fld.value c (t :: ts) ins a with
+        | error e => exact ⟨hc, hs, rfl⟩
+        | ok c' =>
+          simp only []
+          have hcfix : apply env fld.value false c = .ok c := by
+            obtain ⟨f', hf', hx⟩ := hc.1 (k, c) (lookup_mem d.kvs k c hl)
+            simp only at hf' hx
+            rw [hg] at hf'; injection hf' with hf'; subst hf'; exact hx
+          have hfix' := nestedSet_fix env pb (t :: ts) fld.value c ins a c' (hp (by simp) c fld hl hg) hcfix hn
+          have hnm := nestedSet_container env pb (t :: ts) fld.value c ins a c' hn
+          obtain ⟨h1, h2⟩ := replace_entry_conforms env d.fields d.kvs k fld c' hg hfix' hnm hc hs
+          exact ⟨h1, h2, by first | rfl | trivial⟩
+
+/-- A rejected path write stores nothing. -/
+theorem C03_path_write_reject (env : Env) (pb : Val → Bool) (d : TDict) (k : String) (rest : List PKey)
+    (ins : Bool) (a : Val) (e : E) (h : (pathWrite env pb d k rest ins a).2 = some e) :
+    (pathWrite env pb d k rest ins a).1 = d := by
+  cases rest with
+  | nil =>
+    simp only [pathWrite] at h ⊢
+    exact C03_dict_prim_reject env false pb d k (.plain a) e h
+  | cons t ts =>
+    simp only [pathWrite] at h ⊢
+    cases hl : lookup d.kvs k with
+    | none => rfl
+    | some c =>
+      cases hg : getField env d.fields k with
+      | none => rfl
+      | some fld =>
+        simp only [hl, hg] at h ⊢
+        cases hn : nestedSet env pb fld.value c (t :: ts) ins a with
+        | error e' => rfl
+        | ok c' => simp [hn] at h
+
+/-- FULL STATEMENT without the path condition. -/
+def C03_path_write_Full : Prop :=
+  ∀ (env : Env) (pb : Val → Bool) (d : TDict) (k : String) (rest : List PKey) (ins : Bool) (a : Val),
+    ConformsD env false d → ConformsD env false (pathWrite env pb d k rest ins a).1
+
+/-- F185 (replayed on the real code): with `('fl', List(Int()).freeze([1, 2]))`,
+`d.rebind({'fl[0]': 7})` succeeds and the frozen field no longer holds its frozen value. -/
+theorem C03_path_write_counterexample : ¬ C03_path_write_Full := by
+  intro h
+  let fl : Spec := .list (.int none none F0) 0 none ⟨false, .list [.int 1, .int 2], true⟩
+  have hc : ConformsD envT false ⟨[Field.mk (.const "fl") fl], [("fl", .list [.int 1, .int 2])]⟩ := by
+    refine ⟨?_, ?_⟩
+    · intro kv hkv
+      simp only [List.mem_singleton] at hkv
+      subst hkv
+      exact ⟨_, rfl, rfl⟩
+    · intro k hk
+      simp only [constKeys, List.mem_singleton] at hk
+      subst hk; rfl
+  have hres : (pathWrite envT (fun _ => false) ⟨[Field.mk (.const "fl") fl], [("fl", .list [.int 1, .int 2])]⟩
+      "fl" [.idx 0] false (.int 7)).1.kvs = [("fl", .list [.int 7, .int 2])] := by rfl
+  have := (h envT (fun _ => false) _ "fl" [.idx 0] false (.int 7) hc).1 ("fl", .list [.int 7, .int 2]) (by
+    rw [hres]; exact List.mem_singleton.2 rfl)
+  obtain ⟨f, hf, hap⟩ := this
+  simp only [getField, List.find?_cons, Field.key, beq_self_eq_true] at hf
+  injection hf with hf
+  subst hf
+  have e : apply envT (Field.mk (KeySpec.const "fl") fl).value false ("fl", Val.list [.int 7, .int 2]).snd
+      = .error .value := by rfl
+  rw [e] at hap
+  cases hap
+
+example : PathOK envT (.list (.int (some 0) none F0) 0 (some 3) F0) (.list [.int 1]) [.idx 0] :=
+  ⟨rfl, idem_of_frag envT false _ (by rfl), fun h => absurd rfl h⟩
 
 /-! ## What a conforming member looks like -/
 
